@@ -113,7 +113,7 @@ func (m *textMutator) gen(g *gen.Rand) (string, string, string) {
 		if len(m.bombs) == 0 {
 			return base + base, "concat2", ""
 		}
-		sizes := []int{1, 2, 10, 100, 1000, 5000}
+		sizes := []int{1, 2, 10, 100, 1000, 2000}
 		n := sizes[g.Intn(len(sizes))]
 		k := g.Intn(len(m.bombs))
 		return m.bombs[k](g, n), fmt.Sprintf("bomb%d", k), fmt.Sprintf("n=%d", n)
